@@ -2144,6 +2144,7 @@ GENERATORS = {
     "GenSanitize.v": lambda src: __import__("harness.translate_sanitize", fromlist=["translate_sanitize"]).translate_sanitize(src),
     "GenNa.v": lambda src: __import__("harness.translate_reduce", fromlist=["translate_na"]).translate_na(src),
     "GenAlias.v": lambda src: __import__("harness.translate_alias", fromlist=["translate_alias"]).translate_alias(src),
+    "GenRect.v": lambda src: __import__("harness.translate_rect", fromlist=["translate_rect"]).translate_rect(src),
     "GenRepr.v": lambda src: __import__("harness.translate_repr", fromlist=["translate_repr"]).translate_repr(src),
     "GenCsvReader.v": lambda src: __import__("harness.translate_csvreader", fromlist=["translate_csv_reader"]).translate_csv_reader(src),
 }
@@ -2210,6 +2211,7 @@ SCRIPTS = [            # (committed proof script, generated modules it needs)
     ("EqCsvReader.v", ["GenCsvReader.v"]),
     ("EqAlias.v", ["GenAlias.v"]),
     ("EqRepr.v", ["GenRepr.v"]),
+    ("EqRect.v", ["GenRect.v"]),
 ]
 NEEDED_VO = ["Base/GenPrelude", "Props/C04", "Props/C07", "Props/C18", "Props/C11", "Props/C16", "Props/C05", "Props/C19", "Props/C14", "Props/C06", "Props/C12", "Props/C09", "Props/C17", "Props/C15", "Props/C03", "Props/C20"]
 BUDGET = float(__import__("os").environ.get("SERIF_TRANSLATE_BUDGET", "28"))   # seconds for one run()
